@@ -449,6 +449,82 @@ Theorem char_flag_fast_path_refuted : fast_only_size1 (CAtom (AFlag F_CHAR)) = f
   from_buffer_open_code (CAtom (AFlag F_CHAR)) (mk_item 4 [F_CHAR]) 16 = Ok 16.
 Proof. split; vm_compute; reflexivity. Qed.
 
+(* ---------------------------------------------------------------- _fetch_as_buffer: length of cdata sources *)
+(* what a cdata source can be: item size known, and for an array the ctype records either its total size
+   (fixed T[n]) or -1 (open T[]: slices p[a:b], ffi.new('T[]', n), from_buffer('T[]', obj)) *)
+Definition wf_sd (sd : srcdesc) : Prop :=
+  0 <= sd_isz sd /\ 0 <= sd_length sd /\
+  (sd_is_array sd = true -> sd_ct_size sd = sd_length sd * sd_isz sd \/ sd_ct_size sd = -1).
+
+(* the branch of a length expression selected for an array / a pointer source (item size known) *)
+Fixpoint scond_static (c : scond) (is_array : bool) : bool :=
+  match c with
+  | SIsArray => is_array
+  | SItemSizeKnown => true
+  | SAnd a b => scond_static a is_array && scond_static b is_array
+  end.
+Fixpoint resolve (e : lenexpr) (is_array : bool) : lenexpr :=
+  match e with
+  | LIf c a b => if scond_static c is_array then resolve a is_array else resolve b is_array
+  | leaf => leaf
+  end.
+(* decidable check of the regenerated expression: arrays get get_array_length * itemsize, pointers -1 *)
+Definition lenexpr_ok (e : lenexpr) : bool :=
+  match resolve e true, resolve e false with
+  | LLenTimesItem, LUnknown => true
+  | _, _ => false
+  end.
+
+Lemma scond_static_ok : forall c sd, 0 <= sd_isz sd ->
+  scond_holds c sd = scond_static c (sd_is_array sd).
+Proof.
+  induction c as [| |a IHa b IHb]; intros sd H; cbn.
+  - reflexivity.
+  - apply Z.leb_le. exact H.
+  - rewrite IHa, IHb by assumption. reflexivity.
+Qed.
+
+Lemma resolve_ok : forall e sd, 0 <= sd_isz sd ->
+  src_len e sd = src_len (resolve e (sd_is_array sd)) sd.
+Proof.
+  induction e as [| | |c a IHa b IHb]; intros sd H; cbn [src_len resolve]; try reflexivity.
+  rewrite scond_static_ok by assumption.
+  destruct (scond_static c (sd_is_array sd)); auto.
+Qed.
+
+Lemma gen_fetch_len_ok : lenexpr_ok gen_fetch_len = true.
+Proof. vm_compute. reflexivity. Qed.
+
+(* the length handed to mb_ass_slice / memmove for an ARRAY cdata is its real byte length, whether the
+   array type is fixed or open; for a POINTER it is -1 (unknown) *)
+Theorem fetch_len_is_real_length : forall e sd, lenexpr_ok e = true -> wf_sd sd ->
+  src_len e sd = if sd_is_array sd then sd_length sd * sd_isz sd else -1.
+Proof.
+  intros e sd Hok [Hs [Hl Hc]]. rewrite resolve_ok by assumption. unfold lenexpr_ok in Hok.
+  destruct (sd_is_array sd).
+  - destruct (resolve e true); try discriminate. reflexivity.
+  - destruct (resolve e true); try discriminate. destruct (resolve e false); try discriminate. reflexivity.
+Qed.
+
+(* hence an array cdata source is an ordinary buffer of its real contents, a pointer a trusted one *)
+Theorem cdata_source_spec : forall e sd bs, lenexpr_ok e = true -> wf_sd sd ->
+  (sd_is_array sd = true -> zlen bs = sd_length sd * sd_isz sd) ->
+  cdata_source e sd bs = Some (if sd_is_array sd then VBuf bs else VPtrSrc bs).
+Proof.
+  intros e sd bs Hok Hwf Hb. unfold cdata_source. rewrite (fetch_len_is_real_length e sd Hok Hwf).
+  pose proof Hwf as [Hs [Hl _]].
+  destruct (sd_is_array sd).
+  - rewrite <- (Hb eq_refl). pose proof (zlen_nonneg bs).
+    destruct (Z.ltb_spec (zlen bs) 0); [lia|]. rewrite Z.eqb_refl. reflexivity.
+  - reflexivity.
+Qed.
+
+(* taking the size recorded in the array TYPE instead is wrong for every open array *)
+Theorem ct_size_length_refuted :
+  lenexpr_ok (LIf SIsArray LCtSize LUnknown) = false /\
+  src_len (LIf SIsArray LCtSize LUnknown) (mk_sd true (-1) 6 1) = -1.
+Proof. split; vm_compute; reflexivity. Qed.
+
 (* ---------------------------------------------------------------- memmove *)
 Theorem memmove_is_copy_through_temporary : forall mem dest src n,
   0 <= dest -> 0 <= src -> 0 <= n -> src + n <= zlen mem -> dest + n <= zlen mem ->
